@@ -187,8 +187,42 @@ def spellings(steps):
     return out
 
 
+def build_literal(heap, vs):
+    """the literal container graph of a value spec: exact dicts / lists (argument mode rebuilds
+    exactly those), references between its cells, scalar and T leaves; returns the list of objects"""
+    objs = [dict() if c['cls'] == 'dict' else list() for c in vs['cells']]
+
+    def leaf(x):
+        if x['k'] == 'vref':
+            return objs[x['a'] - 1]
+        if x['k'] == 't':
+            return _chain(x['steps'], T)
+        return heap.val(x)
+    for o, c in zip(objs, vs['cells']):
+        if c['cls'] == 'dict':
+            for k, v in c['items']:
+                o[heap.val(k)] = leaf(v)
+        else:
+            o.extend(leaf(v) for v in c['items'])
+    return objs
+
+
+def literal_shape(objs):
+    """structure of the literal's objects with identities (to see that the literal is not touched)"""
+    ids = {id(o): i for i, o in enumerate(objs)}
+
+    def d(x):
+        return ('ref', ids[id(x)]) if id(x) in ids else ('T', repr(x)) if isinstance(x, glom.core.TType) else ('v', repr(x))
+    return [[(repr(k), d(v)) for k, v in o.items()] if isinstance(o, dict) else [d(v) for v in o] for o in objs]
+
+
 def mk_val(heap, vs):
     if vs['k'] == 'lit':
+        if vs['v']['k'] == 'vref':
+            heap.literal = build_literal(heap, vs)
+            heap.literal_shape = literal_shape(heap.literal)
+            heap.literal_root = heap.literal[vs['v']['a'] - 1]
+            return heap.literal_root
         return heap.val(vs['v'])
     if vs['k'] == 'spec':
         return Spec(Path(*_parts(vs['steps'])))
@@ -222,14 +256,57 @@ def _number_created(heap, cls, reachable_only=False):
     walking the pre-existing cells (independent of the order the library made them in);
     unreachable ones follow in creation order (or are left out: reachable_only)."""
     created = {id(o): o for o in heap.created}
+    literal = {id(o) for o in getattr(heap, 'literal', [])}
+    # containers rebuilt from a literal value (argument mode): unknown exact dicts / lists reachable from
+    # the pre-existing cells, numbered first, in depth-first order of first visit
+    rebuilt, met = [], set()
+
+    def find(o):
+        for ch in _children(o):
+            if id(ch) in met:
+                continue
+            known = id(ch) in heap.ids
+            if not known and id(ch) not in created:
+                if type(ch) not in (dict, list) or id(ch) in literal:
+                    continue
+                rebuilt.append(ch)
+            met.add(id(ch))
+            if not known:
+                find(ch)
+    for a in range(1, heap.n0 + 1):
+        find(heap.objs[a])
+    for o in rebuilt:
+        heap.cells.append({'cls': 'dict' if type(o) is dict else 'list', 'items': []})
+        a = len(heap.cells)
+        heap.objs[a] = o
+        heap.ids[id(o)] = a
+    if not rebuilt and getattr(heap, 'literal_root', None) is not None:
+        # the rebuilt value was stored nowhere (failed call, wildcard without a match): its cells are
+        # garbage the harness cannot see; reserve their addresses so that later cells are numbered as
+        # in the specification (only the pre-existing cells are compared in that case)
+        seen_l, todo = [], [heap.literal_root]
+        while todo:
+            o = todo.pop(0)
+            if id(o) in [id(x) for x in seen_l] or type(o) not in (dict, list):
+                continue
+            seen_l.append(o)
+            todo = [ch for ch in _children(o)] + todo
+        for o in seen_l:
+            heap.cells.append({'cls': 'dict' if type(o) is dict else 'list', 'items': []})
+            heap.objs[len(heap.cells)] = type(o)()
     order = []
     seen = set()
 
     def walk(o):
         for ch in _children(o):
-            if id(ch) in created and id(ch) not in seen:
+            if id(ch) in seen:
+                continue
+            if id(ch) in created:
                 seen.add(id(ch))
                 order.append(ch)
+                walk(ch)
+            elif type(ch) in (dict, list) and id(ch) in heap.ids and heap.ids[id(ch)] > heap.n0:
+                seen.add(id(ch))
                 walk(ch)
     for a in range(1, heap.n0 + 1):
         walk(heap.objs[a])
@@ -262,6 +339,8 @@ def _observe(heap, case, ok, cls, res, events, nfac, reachable_only=False):
                         'key': heap.project(e['key']), 'done': e['done']})
     obs['log'] = log
     obs['nfac'] = nfac
+    if getattr(heap, 'literal', None) is not None:
+        obs['literal_untouched'] = literal_shape(heap.literal) == heap.literal_shape
     return obs
 
 
@@ -328,6 +407,9 @@ def run_reuse(case1, case2, spelling, logging, mode):
             h.created.append(o)
         return o
     spec = Assign(mk(), mk_val(heaps[0], case1['val']), missing=factory)
+    for attr in ('literal', 'literal_shape', 'literal_root'):       # the one literal value serves both evaluations
+        if hasattr(heaps[0], attr):
+            setattr(heaps[1], attr, getattr(heaps[0], attr))
     out = []
     if mode == 'seq':
         for h, t, case in zip(heaps, targets, (case1, case2)):
@@ -357,10 +439,22 @@ def run_reuse(case1, case2, spelling, logging, mode):
     return out[0], out[1]
 
 
+def _live(h, n0):
+    """Live(c, h) of GlomMutate.tla: new cells nothing pre-existing refers to are garbage"""
+    for c in h[:n0]:
+        for it in c['items']:
+            x = it[1] if c['cls'] in ('dict', 'odict', 'obj') else it
+            if isinstance(x, dict) and x.get('k') == 'ref' and x['a'] > n0:
+                return h
+    return h[:n0]
+
+
 def conform_clause(case, exp, obs):
     """ConformClause of GlomMutate.tla on an observation (same order of clauses)."""
     n0 = len(case['heap0'])
     h = obs['heap']
+    if obs.get('literal_untouched') is False:
+        return 'literal-value-mutated'
     if exp['err'] == 'unspecified':
         return ''
     if len(h) < n0:
@@ -376,7 +470,7 @@ def conform_clause(case, exp, obs):
     if exp['ok']:
         if obs['v'] != exp['v']:
             return 'returned'
-        if h != exp['heap']:
+        if _live(h, n0) != _live(exp['heap'], n0):
             return 'heap-effect'
         return ''
     if h[:n0] != exp['heap'][:n0]:      # exp.heap = heap0 on wildcard-free paths
@@ -608,6 +702,33 @@ def rand_steps(rng, cells, root, lo, hi, p_valid=0.85, p_star=0.0):
     return steps
 
 
+def _vr(a):
+    return {'k': 'vref', 'a': a}
+
+
+def rand_literal(rng):
+    """a random literal container value: 1-4 exact dicts / lists referring to each other freely
+    (aliasing, cycles, self-reference), scalar and T leaves"""
+    n = rng.randint(1, 4)
+    cells = []
+    for a in range(1, n + 1):
+        cls = rng.choice(['list', 'list', 'dict'])
+        vals = []
+        for _ in range(rng.randint(0, 3)):
+            r = rng.random()
+            if r < 0.55:
+                vals.append(_vr(rng.randint(1, n)))
+            elif r < 0.65:
+                vals.append({'k': 't', 'steps': []})
+            else:
+                vals.append(rng.choice([_sv(0), _sv(1), _sv('s'), _sv(None)]))
+        if cls == 'dict':
+            cells.append({'cls': cls, 'items': [[_sv(k), v] for k, v in zip(['p', 'q', 'r2'], vals)]})
+        else:
+            cells.append({'cls': cls, 'items': vals})
+    return {'k': 'lit', 'v': _vr(1), 'steps': [], 'cells': cells}
+
+
 def rand_case(rng, kind):
     cells = rand_heap(rng)
     root = {'k': 'ref', 'a': 1}
@@ -636,6 +757,8 @@ def rand_case(rng, kind):
             case['val']['steps'] = vsteps
         elif r < 0.4:
             case['val']['v'] = rng.choice([_sv('s'), _sv(None), _sv(0)])
+        elif r < 0.55:
+            case['val'] = rand_literal(rng)
         if rng.random() < 0.5 and not has_star(steps):
             case['missing'] = rng.choice(['dict', 'dict', 'obj', 'list'])
             case['facfail'] = rng.choice([0, 0, 0, 1, 2, 3])
@@ -761,7 +884,12 @@ class Driver:
         """Rows through the Trace module; law clauses are violations, drift- clauses are counted."""
         if not rows:
             return
-        slim = [dict(case=r['case'], obs=r['obs']) for r in rows]
+        for r in rows:
+            if r['obs'].get('literal_untouched') is False:
+                check.violation(dict(case=r['case'], obs=r['obs'], exp=None, spelling=r.get('spelling', ''), logging=True,
+                                     clause='literal-value-mutated', direction='code->spec'),
+                                'the literal value passed to assign was modified', matcher=self.match_rows)
+        slim = [dict(case=r['case'], obs={k: v for k, v in r['obs'].items() if k != 'literal_untouched'}) for r in rows]
         index = {id(s): r for s, r in zip(slim, rows)}
         rejects = vlib.validate_rows(check, self.trace, slim, label, chunk=4000)
         for (row, rej) in rejects:
